@@ -130,3 +130,13 @@ def validate_with_schema(path):
     if r.returncode != 0:
         raise ValueError('evidence does not validate: ' + r.stderr[-2000:])
     return True
+
+
+def dump_failures(prop, tier, seed, failures):
+    """Side file for triage (git-ignored, never read by a check): every failure class of the last run."""
+    os.makedirs(REPLAY_DIR, exist_ok=True)
+    doc = {'property': prop, 'tier': tier, 'seed': seed,
+           'failures': {k: {'cases': n, 'example': jsonable(recs[0]) if recs else None}
+                        for k, (n, recs) in sorted(failures.items())}}
+    with open(os.path.join(REPLAY_DIR, '%s.last_failures.json' % prop), 'w') as f:
+        json.dump(doc, f, indent=1, ensure_ascii=False)
